@@ -283,11 +283,71 @@ def check(program, modules, domains=None):
     return out, n_sites, n_open
 
 
+def identity_flags(fn):
+    """[(test node, parameter, other use node, text)]: a parameter tested
+    with ``is True`` / ``is False`` (identity with the singleton) that the
+    same function also uses by truth value or by equality (as part of a
+    dictionary key).  A true value that is not the singleton - 1, a
+    numpy.bool_ - is taken one way by one use and the other way by the
+    other."""
+    ps = set(formals(fn)) - {"self", "cls"}
+    tests, others = {}, {}
+    for n in _own(fn):
+        if isinstance(n, ast.Compare) and len(n.ops) == 1 and \
+                isinstance(n.ops[0], (ast.Is, ast.IsNot)) and \
+                isinstance(n.left, ast.Name) and n.left.id in ps and \
+                isinstance(n.comparators[0], ast.Constant) and \
+                isinstance(n.comparators[0].value, bool):
+            tests.setdefault(n.left.id, []).append(n)
+        elif isinstance(n, ast.Name) and n.id in ps and \
+                isinstance(n.ctx, ast.Load):
+            par = getattr(n, "_parent", None)
+            if isinstance(par, (ast.If, ast.While, ast.IfExp)) and \
+                    par.test is n:
+                others.setdefault(n.id, []).append((n, "its truth value"))
+            elif isinstance(par, ast.UnaryOp) and isinstance(par.op,
+                                                             ast.Not):
+                others.setdefault(n.id, []).append((n, "its truth value"))
+            elif isinstance(par, ast.BoolOp):
+                others.setdefault(n.id, []).append((n, "its truth value"))
+            elif isinstance(par, ast.Tuple) and isinstance(
+                    getattr(par, "_parent", None), ast.Subscript) and \
+                    par._parent.slice is par:
+                others.setdefault(n.id, []).append(
+                    (n, "equality (as part of the key %s)" %
+                     ast.unparse(par)))
+            elif isinstance(par, ast.Subscript) and par.slice is n:
+                others.setdefault(n.id, []).append(
+                    (n, "equality (as the key of %s)" % ast.unparse(par)))
+    out = []
+    for p, ts in sorted(tests.items()):
+        if p in others:
+            o, how = others[p][0]
+            out.append((ts[0], p, o,
+                        "%s is tested with '%s' at line %d but used by %s "
+                        "at line %d: a true value that is not the True "
+                        "singleton (1, a numpy.bool_) counts as true for "
+                        "the one and as false for the other" % (
+                            p, ast.unparse(ts[0]), ts[0].lineno, how,
+                            o.lineno)))
+    return out
+
+
 def rule(program, rep, rule_id, modules, domains=None):
     """Report the FALSY findings of ``modules`` under ``rule_id``."""
     res, n_sites, n_open = check(program, modules, domains)
     for mname, n, inst, p, text in res:
         rep.bad(rule_id, inst, "truth-test default %s" % p, text, n)
+    for mname in modules:
+        m = program.modules.get(mname)
+        if m is None:
+            continue
+        for q, fn in sorted(m.defs.items()):
+            if isinstance(fn, ast.FunctionDef) and \
+                    not getattr(fn, "_virtual", False):
+                for t, p, o, text in identity_flags(fn):
+                    rep.bad(rule_id, "%s:%s" % (mname, q),
+                            "flag %s read two ways" % p, q + ": " + text, t)
     rep.ok(rule_id, ",".join(sorted(modules)) or "-",
            "%d truth-test default(s) on parameters examined: none replaces "
            "a falsy value that the parameter is known to take (%d left "
